@@ -149,16 +149,21 @@ def isinstance_term(t, classes):
 # ---------------------------------------------------------------------------------------------
 # type specs (schema)
 
+region_of = z3.Function('region', IntS, IntS)
+REGIONS = {}
+
+
 class TypeSpec(object):
     """kind: 'str','int','bool','none','obj','list','dict','set','tuple','any'; opt = may be None."""
 
-    def __init__(self, kind, classes=(), opt=False, elem=None, keyed=None, exact=False):
+    def __init__(self, kind, classes=(), opt=False, elem=None, keyed=None, exact=False, region=None):
         self.kind = kind
         self.classes = tuple(classes)
         self.opt = opt
         self.elem = elem
         self.keyed = keyed      # dict kinds: {constant key: TypeSpec} overriding elem
         self.exact = exact      # instance of exactly classes[0], not of a subclass
+        self.region = region    # ownership region: containers of different regions are never the same object (assumed)
 
     def elem_for_key(self, key):
         if self.keyed and key in self.keyed:
@@ -166,7 +171,7 @@ class TypeSpec(object):
         return self.elem
 
     def with_opt(self, opt):
-        return TypeSpec(self.kind, self.classes, opt, self.elem, self.keyed, self.exact)
+        return TypeSpec(self.kind, self.classes, opt, self.elem, self.keyed, self.exact, self.region)
 
     def __repr__(self):
         return 'TypeSpec(%s,%s,opt=%s,elem=%r)' % (self.kind, [c.__name__ for c in self.classes], self.opt, self.elem)
@@ -199,6 +204,8 @@ class TypeSpec(object):
             base = Or(*[e.assumption(t) for e in self.elem])
         else:
             raise EngineError('bad typespec ' + k)
+        if self.region is not None:
+            base = And(base, region_of(Val.r(t)) == REGIONS.setdefault(self.region, len(REGIONS) + 1))
         if self.opt:
             return Or(Val.is_N(t), base)
         return base
@@ -283,9 +290,23 @@ def parse_spec(s):
 SCHEMA = {}     # (class, field) -> TypeSpec
 
 
+class _LazySchema(dict):
+    """field specs are parsed on first use (named specs may be declared after the schema lines)"""
+
+    def __getitem__(self, key):
+        v = dict.__getitem__(self, key)
+        if isinstance(v, str):
+            v = parse_spec(v)
+            dict.__setitem__(self, key, v)
+        return v
+
+
+SCHEMA = _LazySchema()
+
+
 def schema(cls, **fields):
     for k, v in fields.items():
-        SCHEMA[(cls, k)] = parse_spec(v)
+        SCHEMA[(cls, k)] = v
 
 
 def field_spec(classes, field):
